@@ -325,6 +325,8 @@ def cases(rng, tier):
 def extra_checks(rng, tier, g, info):
     """a wallet whose root is a node DERIVED in this process (it has a parent object and a depth): a path string is
     applied component by component to the wallet's root — the given node — not to some other node of the tree"""
+    from .c13 import soak as _soak13
+    yield from _soak13(rng, tier, info)
     n = 0
     for _ in range(2 if tier == "quick" else 30):
         base = impl.make_wallet("xkey:" + sx(XPRV))
